@@ -279,6 +279,22 @@ func TestC11Enum(t *testing.T) {
 		}
 	}
 	Ev.Note(fmt.Sprintf("exhaustively enumerated sub-space: %d cases", enum))
+	// "for any block size": a few block sizes far beyond the usual 64 KiB, with fresh content long
+	// enough to leave more than two maximal data operations unflushed at the end
+	for _, bs := range []int{2*MiB + 1, 3 * MiB, 5 * MiB} {
+		var lens []int
+		for n := 2 * maxDataOp; n <= 3*maxDataOp+2*bs; n += 512*KiB + 1 {
+			lens = append(lens, n)
+		}
+		for _, n := range lens {
+			c := &wsyncCase{BS: bs, Old: [][]byte{Bytes(uint64(bs), bs+100)}, New: Bytes(uint64(n), n), Preferred: -1}
+			if runWsyncCase(ft, c, [][2]uint64{{0, 0}}) {
+				return
+			}
+			Ev.Eval(fnv64([]byte(fmt.Sprint("hugeblock", bs, n))), false, c.sample)
+		}
+	}
+	Ev.Probe("block_sizes_of_several_MiB")
 }
 
 // TestC11Small lets rapid sample the small space named in the property (bs 1..4, alphabet 2-3,
